@@ -84,15 +84,15 @@ def deriv1(ctx, prog, cfg):
         ty = name.split("::")[0]
         shapes.contains(ctx, "DERIV1", prog, name,
                         [r"call translate_range_bounds\(buf, range\)", r"call %s::new\(buf\)" % ty,
-                         r"call %s::advance_front_by\(&local, translate_range_bounds\(buf, range\)\.0\)" % ty,
-                         r"call %s::advance_back_by\(&local, Sub\(\(\*buf\)\.size, translate_range_bounds\(buf, range\)\.1\)\)" % ty], cfg,
+                         r"call %s::advance_front_by\(&\{%s::new\(buf\)\}, translate_range_bounds\(buf, range\)\.0\)" % (ty, ty),
+                         r"call %s::advance_back_by\(&(local|\{.*\}), Sub\(\(\*buf\)\.size, translate_range_bounds\(buf, range\)\.1\)\)" % ty], cfg,
                         "new(buf) advanced by start from the front and len - end from the back",
                         "`%s` does not select the sub-range by advancing a full iterator by `start` from the front and `len - end` from the back" % name)
     if prog.fn(CB + "to_vec") is not None:
         shapes.contains(ctx, "DERIV1", prog, CB + "to_vec", [r"call CircularBuffer::iter\(self\)", r"call .*Iterator::cloned\(CircularBuffer::iter\(self\)\)",
-                                                              r"call <alloc::vec::Vec<T, A> as .*Extend<T>>::extend\(&local, Iterator::cloned\(CircularBuffer::iter\(self\)\)\)"], cfg,
+                                                              r"call <alloc::vec::Vec<T, A> as .*Extend<T>>::extend\(&\{Vec::with_capacity\(\(\*self\)\.size\)\}, Iterator::cloned\(CircularBuffer::iter\(self\)\)\)"], cfg,
                         "vec.extend(self.iter().cloned())", "`to_vec` does not obtain the elements through self.iter().cloned()")
-    mm(ctx, "DERIV1", prog, "<CircularBuffer<N, T> as Debug>::fmt", [r"return DebugList::finish\(DebugList::entries\(&local, self\)\)"], cfg,
+    mm(ctx, "DERIV1", prog, "<CircularBuffer<N, T> as Debug>::fmt", [r"return DebugList::finish\(DebugList::entries\(&\{Formatter::debug_list\(f\)\}, self\)\)"], cfg,
        "debug_list().entries(self).finish()", "Debug::fmt is not `f.debug_list().entries(self).finish()`")
     for name, callee in (("<CircularBuffer<N, T> as PartialOrd<CircularBuffer<M, U>>>::partial_cmp", "partial_cmp"), ("<CircularBuffer<N, T> as Ord>::cmp", "cmp")):
         mm(ctx, "DERIV1", prog, name, [r"call CircularBuffer::iter\(self\)", r"call CircularBuffer::iter\(other\)",
